@@ -269,6 +269,14 @@ def _shard(arg):
             cl.append("hll_seed>=2^53")
         if case["cfg"].get("width") == 1:
             cl.append("width=1")
+        if any(l.get("pre") == "twin" for l in case["loads"]):
+            cl.append("saved_over_a_lookalike_sketch_file")
+        if any(l.get("pre") == "garbage" for l in case["loads"]):
+            cl.append("saved_over_a_file_that_is_not_a_sketch")
+        if any(s_["op"] == "merge" for h in case["hist"] for s_ in h):
+            cl.append("merge_in_history")
+        if case["cfg"]["kind"] == "hh" and case["cfg"]["phi"] not in (None, 0.01, 0.5, 1.0):
+            cl.append("phi_next_to_default")
         rec.case(case, nontrivial(case), cl)
 
     common.run_given(test, common.derive_seed(seed, "C10", shard), n_examples, holder, rec, retry=run_case)
